@@ -112,7 +112,47 @@ def seeded():
     return "\n".join(out)
 
 
-GEN = {"rules": rules_table, "proprules": proprules, "findings": findings, "fixed": fixed, "seeded": seeded}
+def benign():
+    before = {}
+    for fn in ("BENIGN_eval_before_repair.txt", "BENIGN2_eval_before_repair.txt"):
+        pth = f"{V}/benign/{fn}"
+        if os.path.exists(pth):
+            for line in open(pth):
+                m = re.match(r"w[rs]_(C\d\d)/(r\d)\s+(.*)", line.strip())
+                m2 = re.match(r"(C\d\d-\w+)\s+(.*)", line.strip())
+                if m:
+                    before[f"{m.group(1)}-{m.group(2)}"] = m.group(3)
+                elif m2:
+                    before[m2.group(1)] = m2.group(2)
+    now = {}
+    pth = f"{V}/benign/EVAL_current.txt"
+    if os.path.exists(pth):
+        for line in open(pth):
+            a, _, b = line.strip().partition(" ")
+            now[a] = b
+    out = ["| refactoring | what was reshaped (author's note, first line) | checks when it was written | checks now |", "|---|---|---|---|"]
+    nb = nn = n = 0
+    for d in sorted(glob.glob(f"{V}/benign/C*-*")):
+        bid = os.path.basename(d)
+        note = ""
+        if os.path.exists(f"{d}/note.md"):
+            lines = [l.strip() for l in open(f"{d}/note.md") if l.strip() and not l.startswith("#")]
+            note = " ".join(" ".join(lines[:2]).split())[:170].replace("|", "\\|")
+        b = before.get(bid, "-")
+        rules_b = sorted(set(re.findall(r"(?<![A-Za-z])([A-Z][A-Z0-9]+(?:-[A-Z0-9a-z]+)*)(?=,|\)|:|;| |$)", b)) & set(core.RULES)) if "silent" not in b else []
+        bs = "silent" if "silent" in b else ("**false alarm** (" + ", ".join(rules_b) + ")" if rules_b else ("**false alarm**" if b != "-" else "-"))
+        c = now.get(bid, "-")
+        cs = "silent" if c == "silent" else f"**{c}**"
+        n += 1
+        nb += "silent" in b
+        nn += c == "silent"
+        out.append(f"| {bid} | {note} | {bs} | {cs} |")
+    out.append("")
+    out.append(f"{n} behaviour-preserving refactorings; silent under all 20 checks when written: {nb}; now: {nn}.")
+    return "\n".join(out)
+
+
+GEN = {"benign": benign, "rules": rules_table, "proprules": proprules, "findings": findings, "fixed": fixed, "seeded": seeded}
 
 
 def main():
